@@ -1,3 +1,5 @@
+use crate::errors::AstrolabeError;
+
 use super::{
     constants::{NANOS_PER_DAY, NANOS_PER_SEC},
     time::convert::{days_nanos_to_nanos, nanos_to_days_nanos},
@@ -23,6 +25,19 @@ pub(crate) fn add_offset_to_dn(days: i32, nanoseconds: u64, offset: i32) -> (i32
     nanos += offset as i128 * NANOS_PER_SEC as i128;
     let (days, nanoseconds) = nanos_to_days_nanos(nanos).unwrap();
     (days, nanoseconds)
+}
+
+/// Removes a given offset from days and nanoseconds
+///
+/// Returns an [`OutOfRange`](AstrolabeError::OutOfRange) error if the resulting instant is outside the supported range
+pub(crate) fn try_remove_offset_from_dn(
+    days: i32,
+    nanoseconds: u64,
+    offset: i32,
+) -> Result<(i32, u64), AstrolabeError> {
+    let mut nanos = days_nanos_to_nanos(days, nanoseconds);
+    nanos -= offset as i128 * NANOS_PER_SEC as i128;
+    nanos_to_days_nanos(nanos)
 }
 
 /// Removes a given offset from days and nanoseconds
